@@ -12,7 +12,8 @@ import (
 // (adjacent ranges), node subnets {10.9.1.0/24, 10.9.9.9/32} / {10.9.2.0/24, 10.9.1.0/24}, three nodes; EVERY request of
 // at most three pairwise disjoint range lists out of a menu of six (single address, span inside a pool, span across
 // the two pools, everything) plus the empty request; EVERY allocation state (each address free / held by another pod /
-// - inside the request - held by the target's key); the target alternates between the default policy and `never`.
+// - inside the request - held by the target's key); the target alternates between the default policy and `never`; every case runs on the
+// plain topology and on one of three variants with an additional pool WITHOUT addresses (before / between / after).
 func Exhaustive(col *collector, budgetSec int) (states int, cases int) {
 	a := func(d uint32) uint32 { return ip4(10, 10, 0, d) }
 	conf := plugin.Conf{
@@ -21,6 +22,18 @@ func Exhaustive(col *collector, budgetSec int) (states int, cases int) {
 			{NodeSubnets: []plugin.Subnet{subnetPalette[1], subnetPalette[0]}, Ranges: [][2]uint32{{a(5), a(7)}}, Gateway: a(254), Bits: 24, Vlan: 3},
 		},
 		Nodes: []plugin.Node{nodePalette[0], nodePalette[1], nodePalette[5]},
+	}
+	// the same topology with one additional pool WITHOUT addresses: sorting before / between / after the two pools,
+	// sharing a node subnet with them
+	withEmpty := func(gw uint32, ns plugin.Subnet) plugin.Conf {
+		c := conf
+		c.Pools = append(append([]plugin.Pool(nil), conf.Pools...), plugin.Pool{NodeSubnets: []plugin.Subnet{ns}, Gateway: gw, Bits: 24, Vlan: 1})
+		return c
+	}
+	variants := []plugin.Conf{
+		withEmpty(ip4(10, 5, 0, 1), subnetPalette[1]),
+		withEmpty(a(100), subnetPalette[3]),
+		withEmpty(ip4(10, 200, 0, 1), subnetPalette[0]),
 	}
 	menu := [][][2]uint32{
 		{{a(2), a(2)}}, {{a(3), a(4)}}, {{a(5), a(5)}}, {{a(6), a(7)}}, {{a(4), a(5)}}, {{a(2), a(7)}},
@@ -97,13 +110,18 @@ func Exhaustive(col *collector, budgetSec int) (states int, cases int) {
 			c := &Case{Conf: conf, WF: true, Prelude: []string{"app scale sts ns1 a 2", "sync all"}, Others: others, Held: held,
 				Target: Target{NS: "ns1", Name: "a-0", Kind: "sts", App: "a", Policy: []int{0, 2}[(code+ri)%2], Ranges: req},
 				Cand:   []string{"n1", "n2", "n6"}}
-			wg.Add(1)
-			sem <- struct{}{}
-			go func(c *Case, id string) {
-				defer wg.Done()
-				defer func() { <-sem }()
-				runCase(col, c, 1, id, 4)
-			}(c, fmt.Sprintf("x%d-%d", ri, code))
+			// every (request, state) on the plain topology and on one of the three empty-pool variants (rotating)
+			c2 := *c
+			c2.Conf = variants[(code+ri)%len(variants)]
+			for vi, cc := range []*Case{c, &c2} {
+				wg.Add(1)
+				sem <- struct{}{}
+				go func(c *Case, id string) {
+					defer wg.Done()
+					defer func() { <-sem }()
+					runCase(col, c, 1, id, 4)
+				}(cc, fmt.Sprintf("x%d-%d-%d", ri, code, vi))
+			}
 		}
 	}
 	wg.Wait()
